@@ -27,6 +27,7 @@ func (c08) gen0(rng *rand.Rand, tier string, idx int) Case {
 		o := []int64{0, slide, size, 2*size + 1}[rng.Intn(4)]
 		c.Cfg = [][]string{{"kind", "sqlsliding"}, {"size", itoa(size)}, {"slide", itoa(slide)}, {"ooo", itoa(o)}, {"late", "0"}, {"now", "0"}, {"spell", []string{"ms", "go"}[rng.Intn(2)]}}
 		genSQLWindow(rng, &c, slide, o)
+		maybeWinAPI(rng, &c)
 		return c
 	}
 	if idx%12 == 10 {
